@@ -313,6 +313,21 @@ fn trusted(node: &mut Node) -> String {
     out
 }
 
+/// the verifiable header `vh` with another parent chain root, its extension (and hence its
+/// extra hash and block hash) rebuilt so that the header commits to that root
+fn with_parent_chain_root(vh: &packed::VerifiableHeader, root2: packed::HeaderDigest) -> packed::VerifiableHeader {
+    let hv: HeaderView = vh.header().into_view();
+    let ext: packed::Bytes = root2.calc_mmr_hash().as_bytes().pack();
+    let extra = ckb_types::core::ExtraHashView::new(vh.uncles_hash(), Some(ext.calc_raw_data_hash()));
+    let hv2 = hv.as_advanced_builder().extra_hash(extra.extra_hash()).build();
+    packed::VerifiableHeader::new_builder()
+        .header(hv2.data())
+        .uncles_hash(vh.uncles_hash())
+        .extension(packed::BytesOpt::new_builder().set(Some(ext)).build())
+        .parent_chain_root(root2)
+        .build()
+}
+
 #[derive(Clone, Debug, PartialEq)]
 enum Edit {
     Honest,
@@ -416,6 +431,8 @@ fn run_history(rep: &mut Report, prop: &str, seed: u64, len: usize) -> HistoryOu
     let mut impls = vec!["ok".to_string()];
     // outstanding proof requests as sent by the client: peer -> request
     let mut outstanding: BTreeMap<u64, packed::GetLastStateProof> = BTreeMap::new();
+    // second message of the two-step announcement attack (forged sibling, then forged child)
+    let mut pending_child: Option<(u64, packed::VerifiableHeader)> = None;
     let mut connected: BTreeSet<u64> = BTreeSet::new();
     let mut nontrivial = false;
 
@@ -753,15 +770,26 @@ fn run_history(rep: &mut Report, prop: &str, seed: u64, len: usize) -> HistoryOu
                 if connected.is_empty() {
                     continue;
                 }
-                let p = forced_peer.unwrap_or_else(|| *rng.pick(&connected.iter().cloned().collect::<Vec<_>>()));
+                let mut p = forced_peer.unwrap_or_else(|| *rng.pick(&connected.iter().cloned().collect::<Vec<_>>()));
+                let second_step = match pending_child.take() {
+                    Some((pp, cvh)) if connected.contains(&pp) && forced_peer.is_none() => {
+                        p = pp;
+                        Some(cvh)
+                    }
+                    _ => None,
+                };
                 let ci = *world.peer_chain.get(&p).unwrap_or(&0);
                 let chain = &world.chains[ci];
-                let variant = if forced_peer.is_some() || c05 { 11 } else { rng.below(12) };
+                let variant = if second_step.is_some() { 99 } else if forced_peer.is_some() || c05 { 11 } else { rng.below(12) };
                 let mut packed_vh = match variant {
                     0 => chain.verifiable_header(rng.range(1, chain.tip_number())), // an older block
                     _ => chain.verifiable_header(chain.tip_number()),
                 };
                 let mut label = "tip";
+                if let Some(cvh) = second_step {
+                    packed_vh = cvh;
+                    label = "forged-child-after-sibling";
+                }
                 if variant == 1 {
                     // chain root not committed: alter the parent chain root
                     let root = packed_vh.parent_chain_root();
@@ -769,7 +797,36 @@ fn run_history(rep: &mut Report, prop: &str, seed: u64, len: usize) -> HistoryOu
                     packed_vh = packed_vh.as_builder().parent_chain_root(root).build();
                     label = "bad-root";
                 }
-                if variant == 2 && prop != "C01" {
+                let proved_tip = node
+                    .env
+                    .peers
+                    .get_state(&PeerIndex::new(p as usize))
+                    .and_then(|st| st.get_prove_state().map(|ps| ps.get_last_header().header().hash() == chain.tip().hash()))
+                    .unwrap_or(false);
+                if variant == 2 && prop != "C01" && proved_tip && chain.tip_number() >= 3 && rng.chance(1, 2) {
+                    // two steps.  First a sibling Q of the peer's proved tip P (same height, own
+                    // block) that commits to a parent chain root with an inflated total difficulty:
+                    // nothing but an unproven announcement.  Then a child C of P whose parent
+                    // chain root claims Q's total difficulty at P's number: it fits the ANNOUNCED
+                    // state, not the proved one.
+                    let pn = chain.tip_number();
+                    let mut side = chain.fork(pn - 1, 998);
+                    side.append_simple(1);
+                    let q0 = side.verifiable_header(pn);
+                    let inflated: U256 = U256::one() << 200u32;
+                    let qroot = q0.parent_chain_root().as_builder().total_difficulty(inflated.pack()).build();
+                    let q = with_parent_chain_root(&q0, qroot);
+                    let qv: VerifiableHeader = q.clone().into();
+                    let q_td = qv.total_difficulty();
+                    let mut up = chain.fork(pn, 997);
+                    up.append_simple(1);
+                    let c0 = up.verifiable_header(pn + 1);
+                    let croot = c0.parent_chain_root().as_builder().total_difficulty(q_td.pack()).build();
+                    let c = with_parent_chain_root(&c0, croot);
+                    packed_vh = q;
+                    pending_child = Some((p, c));
+                    label = "forged-sibling";
+                } else if variant == 2 && prop != "C01" {
                     // the forged child: an own block on top of the peer's tip whose extension
                     // commits to a parent chain root with an inflated total difficulty
                     let mut forged = chain.fork(chain.tip_number(), 999);
